@@ -323,7 +323,7 @@ theorem processMatches_ok (q : SemQuery) (hagg : q.isAgg = false) (nr : Nat) (re
 /-- with the join map of `B`, `getRhs`/`lhsKey` compute exactly the expansion of the specification -/
 theorem expandRecord_join (q : SemQuery) (B : Table) (jm : JoinMap) (js : JoinSpec)
     (hj : q.join = some js)
-    (hjm : jm.maxLen = maxWidth B ∧
+    (hjm : jm.maxLen = nullWidth js B ∧
       ∀ key, jm.get key = (partnersSpec js.rhs B key).map (fun p => (p.1, p.2.length, p.2)))
     (nr : Nat) (recA : Row) :
     expandRecord q B nr recA = (do
@@ -353,7 +353,7 @@ theorem expandRecord_join (q : SemQuery) (B : Table) (jm : JoinMap) (js : JoinSp
 
 theorem stepRecord_ok (q : SemQuery) (B : Table) (jm : JoinMap)
     (hsel : q.isUpdate = false) (hagg : q.isAgg = false)
-    (hjm : ∀ js, q.join = some js → (jm.maxLen = maxWidth B ∧
+    (hjm : ∀ js, q.join = some js → (jm.maxLen = nullWidth js B ∧
         ∀ key, jm.get key = (partnersSpec js.rhs B key).map (fun p => (p.1, p.2.length, p.2))))
     (st : LoopState) (hnu : st.nu = 0) (hstop : st.stop = false) (nr : Nat) (recA : Row)
     (envs : List Env) (out : List (List Val × Row))
@@ -410,7 +410,7 @@ theorem emissions_cons_ok {q : SemQuery} {B : Table} {recA : Row} {rest : Table}
 /-- the bridge, generalised over the starting record number and loop state -/
 theorem mainLoop_fed (q : SemQuery) (B : Table) (jm : JoinMap)
     (hsel : q.isUpdate = false) (hagg : q.isAgg = false)
-    (hjm : ∀ js, q.join = some js → (jm.maxLen = maxWidth B ∧
+    (hjm : ∀ js, q.join = some js → (jm.maxLen = nullWidth js B ∧
         ∀ key, jm.get key = (partnersSpec js.rhs B key).map (fun p => (p.1, p.2.length, p.2))))
     (A : Table) (nr : Nat) (st : LoopState) (hnu : st.nu = 0) (hstop : st.stop = false)
     (es : List (List Val × Row)) (hes : emissions q B A nr = .ok es) :
@@ -434,7 +434,7 @@ theorem mainLoop_fed (q : SemQuery) (B : Table) (jm : JoinMap)
 
 theorem mainLoop_bridge (q : SemQuery) (A B : Table) (jm : JoinMap)
     (hsel : q.isUpdate = false) (hagg : q.isAgg = false)
-    (hjm : ∀ js, q.join = some js → (jm.maxLen = maxWidth B ∧
+    (hjm : ∀ js, q.join = some js → (jm.maxLen = nullWidth js B ∧
         ∀ key, jm.get key = (partnersSpec js.rhs B key).map (fun p => (p.1, p.2.length, p.2))))
     (es : List (List Val × Row)) (hes : emissions q B A 0 = .ok es) (c0 : Chain) :
     ∃ st n, mainLoop q jm A 0 { chain := c0 } = .ok (st, n) ∧ st.agg = none ∧ st.nu = 0 ∧
@@ -519,7 +519,7 @@ theorem processMatches_err (q : SemQuery) (hagg : q.isAgg = false) (nr : Nat) (r
         exact ih (st.fed hd) hnu (f1.trans hstop) f2 h2
 
 theorem stepRecord_err_expand (q : SemQuery) (B : Table) (jm : JoinMap) (hsel : q.isUpdate = false)
-    (hjm : ∀ js, q.join = some js → (jm.maxLen = maxWidth B ∧
+    (hjm : ∀ js, q.join = some js → (jm.maxLen = nullWidth js B ∧
         ∀ key, jm.get key = (partnersSpec js.rhs B key).map (fun p => (p.1, p.2.length, p.2))))
     (st : LoopState) (nr : Nat) (recA : Row) (e : EngErr)
     (he : expandRecord q B nr recA = .error e) :
@@ -545,7 +545,7 @@ theorem stepRecord_err_expand (q : SemQuery) (B : Table) (jm : JoinMap) (hsel : 
 
 theorem stepRecord_err_project (q : SemQuery) (B : Table) (jm : JoinMap)
     (hsel : q.isUpdate = false) (hagg : q.isAgg = false)
-    (hjm : ∀ js, q.join = some js → (jm.maxLen = maxWidth B ∧
+    (hjm : ∀ js, q.join = some js → (jm.maxLen = nullWidth js B ∧
         ∀ key, jm.get key = (partnersSpec js.rhs B key).map (fun p => (p.1, p.2.length, p.2))))
     (st : LoopState) (hnu : st.nu = 0) (hstop : st.stop = false) (hnr : st.chain.NoRefuse)
     (nr : Nat) (recA : Row) (envs : List Env) (e : EngErr)
@@ -582,7 +582,7 @@ theorem stepRecord_err_project (q : SemQuery) (B : Table) (jm : JoinMap)
 /-- the first-error statement, generalised over the starting record number and loop state -/
 theorem mainLoop_err (q : SemQuery) (B : Table) (jm : JoinMap)
     (hsel : q.isUpdate = false) (hagg : q.isAgg = false)
-    (hjm : ∀ js, q.join = some js → (jm.maxLen = maxWidth B ∧
+    (hjm : ∀ js, q.join = some js → (jm.maxLen = nullWidth js B ∧
         ∀ key, jm.get key = (partnersSpec js.rhs B key).map (fun p => (p.1, p.2.length, p.2))))
     (A : Table) (nr : Nat) (st : LoopState) (hnu : st.nu = 0) (hstop : st.stop = false)
     (hnr : st.chain.NoRefuse) (e : EngErr) (hes : emissions q B A nr = .error e) :
@@ -617,7 +617,7 @@ theorem mainLoop_err (q : SemQuery) (B : Table) (jm : JoinMap)
 
 theorem mainLoop_first_error (q : SemQuery) (A B : Table) (jm : JoinMap)
     (hsel : q.isUpdate = false) (hagg : q.isAgg = false) (htop : q.top = none)
-    (hjm : ∀ js, q.join = some js → (jm.maxLen = maxWidth B ∧
+    (hjm : ∀ js, q.join = some js → (jm.maxLen = nullWidth js B ∧
         ∀ key, jm.get key = (partnersSpec js.rhs B key).map (fun p => (p.1, p.2.length, p.2))))
     (e : EngErr) (hes : emissions q B A 0 = .error e) (sink : Sink) (hs : sink.refuseFrom = none) :
     ∃ st n, mainLoop q jm A 0 { chain := buildChain q sink } = .error (e, st, n) :=
